@@ -5,6 +5,10 @@ HERE = os.path.dirname(os.path.dirname(os.path.abspath(__file__)))
 ALL = [f'C{i:02d}' for i in range(1, 21)]
 
 CHECKS = {
+ 'C03': dict(level='fault_enumeration', design='3/C03',
+   technique='fault injection + snapshot-equality oracle on the real provider: body crash points, rejected calls, raising pre-commit handler, natural commit failures, failpoints at the n-th table update; reflection-driven deep mutator on every handed-out object',
+   text='A real provider (loop-back transport, one subscribed consumer as report sink) is driven through transactions that must not take effect: the body raises at every position (0..k of k handles, both interfaces; start/middle/end of every op kind in random histories, after deep mutation of the handed-out copies), API calls that must be rejected, a raising pre-commit handler, commits that fail for natural reasons (duplicate context handle, context-state deletion via entity), and a failpoint that makes the n-th table update of the commit raise. Oracle: full canonical snapshot (content, versions, saved version counters, table sizes, lookups) equal to the one before, nothing on the wire, no result published. Isolation: every nested attribute path (found by reflection over the property descriptors) of every object handed out by transaction getters (during and after the transaction), entity getters, transaction results and created descriptors is mutated once; after each mutation the MDIB snapshot and all retained earlier results must be unchanged.',
+   note='Failpoints are instance-level wrappers of the table update methods installed by the harness. A failing report delivery after the tables were updated is not a failed commit (not judged here). Known finding: no rollback when the commit itself raises mid-way (key commit_fail.failpoint.no_rollback).'),
  'C02': dict(level='exploration', design='3/C02',
    technique='runtime monitor: canonical snapshot diff of the real ProviderMdib before/after every transaction of seeded histories + per-handle version high-water marks + structural walker',
    text='Seeded transaction histories (all state kinds, context, rt, descriptor create/update/delete/re-create, parent+child and descriptor+state in one transaction in both orders, location, empty/aborted/rejected; classic and entity interface) are executed on the real ProviderMdib loaded from the four sample MDIBs. After every transaction a canonical snapshot of all three tables is diffed against the previous one: MdibVersion +1 iff something changed, every changed entity has a higher version, no (handle, version) is ever seen with two contents, versions never decrease across delete/re-create, states carry their descriptor\'s DescriptorVersion, no orphan / duplicate, nothing changed that the transaction did not touch or is coupled to, all lookups agree with a scan. Held on the histories executed.',
